@@ -20,6 +20,8 @@ func vhC02Engine() (*Engine, *ArrayLoader) {
 		"other/part": "P{{ x }}",
 		"lib":        "{% macro m(p) %}({{ p }}){% endmacro %}",
 		"useslib":    "{% import 'lib' as l %}{{ l.m(x) }}",
+		"broken":     "{% if x %}{{ x }",
+		"usesbroken": "a{% include 'broken' %}",
 	})
 	e.RegisterLoader(al)
 	e.RegisterString("t", "a{{ x }}{% include 'inc' %}")
@@ -186,6 +188,34 @@ var vhC02IOps = []vhC02IOp{
 		}
 		return t.Render(map[string]interface{}{"x": x})
 	}, func(x string) string { return "p" + x + "y" }},
+	{"render-broken", func(e *Engine, x string) (string, error) {
+		o, err := e.Render("broken", map[string]interface{}{"x": x})
+		if err != nil {
+			return "error:" + o, nil
+		}
+		return "no-error:" + o, nil
+	}, func(x string) string { return "error:" }},
+	{"load-broken", func(e *Engine, x string) (string, error) {
+		t, err := e.Load("broken")
+		if err != nil && t == nil {
+			return "error", nil
+		}
+		return "no-error-or-template", nil
+	}, func(x string) string { return "error" }},
+	{"include-broken", func(e *Engine, x string) (string, error) {
+		o, err := e.Render("usesbroken", map[string]interface{}{"x": x})
+		if err != nil {
+			return "error:" + o, nil
+		}
+		return "no-error:" + o, nil
+	}, func(x string) string { return "error:" }},
+	{"render-missing", func(e *Engine, x string) (string, error) {
+		o, err := e.Render("nosuchtemplate", map[string]interface{}{"x": x})
+		if err != nil {
+			return "error:" + o, nil
+		}
+		return "no-error:" + o, nil
+	}, func(x string) string { return "error:" }},
 	{"matches", vhC02Render("m", nil), func(x string) string {
 		if x == "a" {
 			return "M"
